@@ -304,6 +304,10 @@ func (g *Gen) randBatch(name string, cfg batchCfg) *BatchSpec {
 					}
 					var rhs [][]byte
 					for q := 0; q < nr; q++ {
+						if g.chance(0.04) {
+							rhs = append(rhs, []byte{}) // the empty string is a synonym like any other (defect D16)
+							continue
+						}
 						rhs = append(rhs, synTerms[g.r.Intn(len(synTerms))])
 					}
 					sf.Defs = append(sf.Defs, SynDef{LHS: lhs, RHS: rhs})
